@@ -20,8 +20,10 @@ MARKERS = ['S', 'I', 'M', 'P', 'B', 'D', 'X', '', 's', 'SS', '#', '$', '{', '}',
 BAD_INT = ['x', '', '1.0', '1e3', '0x10', '--1', '1-', '1 2', '_1', '1_', '1__0', 'None', '#', '$', '+', '-', 'I',
            '{', '}', '{0}', '{x}', '{}', '%s', '%(a)s', '{0.__class__}']
 PY_INT = ['+2', '1_0', ' 3 ', '-0', '007', '\t5']          # accepted by int(): not malformed
-BAD_MODE = ['X', 'Q', 'raw', 'x', '1', ' ', 'ZM', '%52', '{', '}', '{0}', '{x}', '%s']
-OK_MODE = ['R', 'M', 'D', 'C', '#', '$', 'RAW', 'Mx', 'CD']  # first letter decides
+BAD_MODE = ['X', 'Q', 'raw', 'x', '1', ' ', 'ZM', '%52', '{', '}', '{0}', '{x}', '%s',
+            # unknown codes that merely BEGIN with the letter of a mode
+            'RAW', 'Mx', 'CD', 'MM', 'M ', 'MERGE', 'RMDC', 'M#', 'C$']
+OK_MODE = ['R', 'M', 'D', 'C', '#', '$']
 BAD_PLAT = ['X', 'a', 'AG', 'APPLE', ' ', '1', 'A ', '', '{', '}', '{0}', '{x}', '%s']
 OK_PLAT = ['A', 'G', '#', '$']
 
